@@ -1,11 +1,196 @@
 import NavisModel.Drv.Proto
+import NavisModel.Drv.Forest
 import NavisModel.Model.Forest
-/-! Extension commands for C10 (line protocol prefix `c10x.`). -/
-namespace Navis.Drv.C10Ext
+import NavisModel.Model.TreeEdit
+import NavisModel.Model.TreeCheck
+/-! Extension commands for C10 (line protocol prefix `c10x.`).
 
-def run (cmd _rest : String) : Option String :=
+Wire format of a neuron: `table | connectors | tags | soma` where `table` is as in `Drv/Forest.lean`,
+connectors are blank-separated `cid:node:kind`, tags are `-` (None) or blank-separated `name=i,j,k`
+entries (possibly none: the empty dict), soma is `-` or an id.  A printed neuron is
+`topology # connector ids in table order # tags (sorted by name, ids in order) # soma`. -/
+namespace Navis.Drv.C10Ext
+open Navis.Forest Navis.Proto Navis.Drv.Forest Navis.TreeEdit
+
+def parseConn (s : String) : Option Conn :=
+  match s.splitOn ":" with
+  | [c, n, k] => do pure { cid := ← c.toInt?, node := ← n.toInt?, kind := ← k.toNat? }
+  | [c, n] => do pure { cid := ← c.toInt?, node := ← n.toInt? }
+  | _ => none
+
+def parseTags (s : String) : Option (Option Tags) :=
+  let s := trim s
+  if s == "-" then some none
+  else do
+    let es ← (words s).mapM fun e => match e.splitOn "=" with
+      | [k, v] => do pure (k, ← intList? v)
+      | _ => none
+    pure (some es)
+
+def parseSoma (s : String) : Option (Option Int) :=
+  let s := trim s
+  if s == "-" then some none else s.toInt?.map some
+
+def parseNeuron (tb cn tg so : String) : Option Neuron := do
+  let t ← parseTable tb
+  let cs ← (words cn).mapM parseConn
+  let tags ← parseTags tg
+  let soma ← parseSoma so
+  pure { nodes := t, conns := cs, tags := tags, soma := soma }
+
+def showTags : Option Tags → String
+  | none => "-"
+  | some tg =>
+    let es := tg.toArray.qsort (fun a b => a.1 < b.1) |>.toList
+    " ".intercalate (es.map fun e => e.1 ++ "=" ++ showInts e.2)
+
+def showNeuron (x : Neuron) : String :=
+  showTopo x.nodes ++ " # " ++ showInts (x.conns.map (·.cid)) ++ " # " ++ showTags x.tags ++ " # " ++
+    (match x.soma with | some s => toString s | none => "-")
+
+def showErr : Err → String
+  | .noTags => "ERR:no-tags" | .noTag => "ERR:no-tag" | .multiTag => "ERR:multi-tag"
+  | .notFound => "ERR:not-found" | .isRoot => "ERR:is-root" | .multiTree => "ERR:multi-tree"
+  | .gone => "ERR:gone" | .noEdge => "ERR:no-edge" | .badIndex => "ERR:bad-index"
+
+def parseWhere (s : String) : Option (List Where) :=
+  (strList s).mapM fun w =>
+    if w.startsWith "t:" then some (Where.tag (w.drop 2).toString) else w.toInt?.map Where.id
+
+def parseRet : String → Option Ret
+  | "both" => some .both | "proximal" => some .proximal | "distal" => some .distal | _ => none
+
+def parseMask (s : String) : Option (List Bool) :=
+  (trim s).toList.mapM fun c => if c == '1' then some true else if c == '0' then some false else none
+
+def showWGraph (g : WGraph) : String :=
+  let es := g.toArray.qsort (fun a b => a.1 < b.1 || (a.1 == b.1 && a.2.1 < b.2.1)) |>.toList
+  " ".intercalate (es.map fun e => s!"{e.1}>{e.2.1}:{e.2.2}")
+
+def run (cmd rest : String) : Option String :=
   match cmd with
   | "ping" => some "pong-c10x"
+  | "subsetn" => do
+    -- "<ids|mask|pf> <keep_disc_cn 0/1> <ids or mask>" | table | conns | tags | soma
+    match rest.splitOn "|" with
+    | [a, tb, cn, tg, so] => do
+      let x ← parseNeuron tb cn tg so
+      match words a with
+      | ["ids", kd, l] => do
+        let s ← intList? l
+        pure (showNeuron (subsetNeuron x (fun i => s.contains i) (kd == "1")))
+      | ["ids", kd] => pure (showNeuron (subsetNeuron x (fun _ => false) (kd == "1")))
+      | ["mask", kd, m] => do
+        let m ← parseMask m
+        -- the mask form selects rows by position; the filters see the resulting table
+        let t' := subsetMask x.nodes m
+        pure (showNeuron { nodes := t', conns := if kd == "1" then x.conns else filterConns t' x.conns,
+                           tags := x.tags.map (filterTags t'), soma := filterSoma t' x.soma })
+      | ["pf", kd, l] => do
+        let s ← intList? l
+        pure (showNeuron (subsetNeuronPF x s (kd == "1")))
+      | _ => none
+    | _ => none
+  | "cutskel" => do
+    -- "<ret> <where-list>" | neuron
+    match rest.splitOn "|" with
+    | [a, tb, cn, tg, so] => do
+      let x ← parseNeuron tb cn tg so
+      match words a with
+      | [r, w] => do
+        let ret ← parseRet r
+        let wh ← parseWhere w
+        match cutSkeleton x wh ret with
+        | .ok fs => pure (" || ".intercalate (fs.map showNeuron))
+        | .error e => pure (showErr e)
+      | _ => none
+    | _ => none
+  | "prune" => do
+    -- "<distal|proximal> <where-list>" | neuron      (the method forms, several nodes)
+    match rest.splitOn "|" with
+    | [a, tb, cn, tg, so] => do
+      let x ← parseNeuron tb cn tg so
+      match words a with
+      | [which, w] => do
+        let wh ← parseWhere w
+        let spec ← if which == "distal" then some refDistal else if which == "proximal" then some refProximal else none
+        match pruneMethod spec x wh with
+        | .ok y => pure (showNeuron y)
+        | .error e => pure (showErr e)
+      | _ => none
+    | _ => none
+  | "prunemany" => do
+    -- "<distal|proximal> <ids>" | table               (specification: successive single prunes)
+    let (a, tb) ← split2 rest
+    let t ← parseTable tb
+    match words a with
+    | [which, l] => do
+      let cs ← intList? l
+      let step ← if which == "distal" then some pruneDistal1 else if which == "proximal" then some pruneProximal1 else none
+      match pruneMany step t cs with
+      | some t' => pure (showTopo t')
+      | none => pure "ERR"
+    | _ => none
+  | "rerootn" => do
+    -- "<where-list>" | neuron
+    match rest.splitOn "|" with
+    | [a, tb, cn, tg, so] => do
+      let x ← parseNeuron tb cn tg so
+      let wh ← parseWhere a
+      match rerootNeuron x wh with
+      | .ok y => pure (showNeuron y)
+      | .error e => pure (showErr e)
+    | _ => none
+  | "rerootg" => do
+    -- "<ig|nx> <r>" | table   → the edited weighted graph (weights = Euclidean edge lengths of the input)
+    let (a, tb) ← split2 rest
+    let t ← parseTable tb
+    match words a with
+    | [be, r] => do
+      let r ← r.toInt?
+      let g := graphOf t (coordLen t)
+      match find? t r with
+      | none => pure "ERR:not-found"
+      | some nr =>
+        if nr.parent < 0 then pure (showWGraph g)
+        else if be == "ig" then pure (showWGraph (rerootGraphIg g (rootPath t r)))
+        else pure (showWGraph (rerootGraphNx g r))
+    | _ => none
+  | "rerootok" => do
+    -- "<r>" | table before | table after     → Lean-side checker on the implementation's output (`rerootOKB`)
+    match rest.splitOn "|" with
+    | [a, tb, ta] => do
+      let r ← (trim a).toInt?
+      let t ← parseTable tb
+      let t' ← parseTable ta
+      pure (b2s (rerootOKB t t' r))
+    | _ => none
+  | "subsetok" => do
+    -- "<ids>" | table before | table after   → `subsetOKB`
+    match rest.splitOn "|" with
+    | [a, tb, ta] => do
+      let s ← intList? a
+      let t ← parseTable tb
+      let t' ← parseTable ta
+      pure (b2s (subsetOKB t t' (fun i => s.contains i)))
+    | _ => none
+  | "fragsok" => do
+    -- "<root> <cuts>" | table | frag || frag || …   → `fragsOKB` (fragments = the specified ones, any order)
+    match rest.splitOn "|" with
+    | a :: tb :: fr => do
+      match words a with
+      | [ro, cs] => do
+        let ρ ← ro.toInt?
+        let cs ← intList? cs
+        let t ← parseTable tb
+        -- fragments are separated by "||": the split on "|" leaves empty strings between them
+        let frs ← (fr.filter fun s => !(trim s).isEmpty).mapM parseTable
+        pure (b2s (fragsOKB t ρ cs frs))
+      | _ => none
+    | _ => none
+  | "graphof" => do
+    let t ← parseTable rest
+    pure (showWGraph (graphOf t (coordLen t)))
   | _ => none
 
 end Navis.Drv.C10Ext
